@@ -235,10 +235,17 @@ def check_operators(ctx, rng, n):
         fnum = gen.choice(rng, [7.5, -2.25, [1.5, 2.5, 3.0] if bi.shape else [1.5], numpy.array(0.75)])
         # a plain number / numpy scalar as the divisor, zero included (seeded change C05-8: `/` took a numeric short cut)
         sdiv = gen.choice(rng, [2.0, 0.0, 0, numpy.float64(0.0), numpy.int64(0), -0.5, numpy.float32(0.0), numpy.int64(4)])
+        # a number on the left of an array divisor that mixes polynomial and non-zero constant elements (seeded change
+        # C05-10: a whole-array "dividend is constant, divisor is not" short cut in poly_divide)
+        bmix = numpoly.polynomial([q0 + int(rng.integers(0, 3)), int(gen.choice(rng, [2, 4, -2])), q1 * q0 + 1])
+        cnum = gen.choice(rng, [4, 8.0, [4, 6, 8], numpy.array(6)])
         ctx.evaluations += 1
         try:
             qd, rd = numpoly.poly_divmod(a, b)
-            pairs = [("poly / scalar %r" % (sdiv,), a / sdiv, numpoly.poly_divide(a, sdiv)),
+            pairs = [("number / mixed divisor", cnum / bmix, numpoly.poly_divmod(cnum, bmix)[0]),
+                     ("poly_divide(number, mixed divisor)", numpoly.poly_divide(cnum, bmix), numpoly.poly_divmod(cnum, bmix)[0]),
+                     ("identity with mixed divisor", (cnum / bmix) * bmix + cnum % bmix, numpoly.polynomial(cnum) + 0.0 * bmix),
+                     ("poly / scalar %r" % (sdiv,), a / sdiv, numpoly.poly_divide(a, sdiv)),
                      ("poly %% scalar %r" % (sdiv,), a % sdiv, numpoly.poly_remainder(a, sdiv)),
                      ("divmod(poly, scalar %r)[0]" % (sdiv,), divmod(a, sdiv)[0], numpoly.poly_divmod(a, sdiv)[0]),
                      ("identity with scalar divisor %r" % (sdiv,), (a / sdiv) * sdiv + a % sdiv, a + 0.0),
